@@ -27,14 +27,15 @@ from ..universe import Universe, KINDS  # noqa: E402
 PROP = "C07"
 LEVEL = "exploration"
 RULE = ("case = one generated netlist (any hierarchy, cross-library references, top instance standalone or also a child, "
-        "named or unnamed elements, nested user data) with the netlist and a sample (thorough: all) of its libraries, "
+        "named or unnamed elements, nested mutable user data on every element kind; every other case with instances outside "
+        "the netlist left in its reference sets by earlier removals) with the netlist and a sample (thorough: all) of its libraries, "
         "definitions, instances, ports, cables, wires, inner and outer pins as clone roots, followed by edits and "
         "uniquify/flatten on one side; distinct = shape hash; non-trivial = >=2 libraries with a cross-library reference "
         "or a shared definition, and >=15 clone roots checked")
 ASSUMPTIONS = ["clone roots are elements of well-formed netlists (every child has a reference)",
                "documented side effects: Definition.clone / Instance.clone / Library.clone add the cloned instances to the "
                "reference sets of definitions that were not cloned; Netlist.clone changes nothing in the source"]
-REQUIRED = {"netlist_clones": 50, "clone_roots": 1500, "independence_edit_steps": 1000, "queries_compared": 1000}
+REQUIRED = {"netlist_clones": 50, "netlists_with_straggler_instances": 20, "elements_with_nested_data": 500, "clone_roots": 1500, "independence_edit_steps": 1000, "queries_compared": 1000}
 
 
 def probe_clone_namespace():
@@ -193,7 +194,7 @@ def check_netlist_clone(ctx, n, rng, st):
         elif why.startswith("outer pin"):
             key += ":outer-pin-inner-pin"
         return key, "clone and source share %d objects %s %s" % (len(shared), dict(kinds), why)
-    errs = wf.self_contained(c)
+    errs = wf.self_contained(c, strict_refsets=True)
     if errs:
         return "netlist-clone-ill-formed:%s" % errs[0][0], errs[0][1]
     errs = wf.check_c01(UC) + wf.check_c02(UC)
@@ -429,9 +430,51 @@ def check_small_clone(ctx, kind, x, n):
     return None
 
 
+def decorate(ctx, n, rng):
+    """Nested mutable user data on elements of every kind (what the EDIF / Verilog readers store: lists of dicts,
+    dicts of parameters), so that sharing of nested values between source and clone is observable."""
+    els = [n] + [l for l in n.libraries]
+    for l in n.libraries:
+        for d in l.definitions:
+            els += [d] + list(d.ports) + list(d.cables) + list(d.children)
+    k = 0
+    for e in els:
+        if rng.random() < 0.35:
+            e["EDIF.properties"] = [{"identifier": "P", "value": rng.randint(0, 9)}] if "EDIF.properties" not in e else e["EDIF.properties"]
+            e["VERILOG.parameters"] = {"W": str(rng.randint(1, 64)), "nested": {"l": [1, 2]}}
+            k += 1
+    ctx.count("elements_with_nested_data", k)
+
+
+def leave_stragglers(ctx, n, rng):
+    """Legal earlier history that leaves instances outside the netlist in the reference sets of its definitions: a
+    definition that still has children removed from its library, a child removed from its parent, a free-standing
+    instance.  None of them belongs to the netlist; a clone must not refer to them."""
+    defs = [d for l in n.libraries for d in l.definitions]
+    lib = rng.choice(list(n.libraries))
+    old = lib.create_definition("OLD_straggler")
+    for k in range(rng.randint(1, 3)):
+        old.create_child("x%d" % k, reference=rng.choice(defs))
+    lib.remove_definition(old)
+    holders = [d for d in defs if len(d.children) > 1]
+    if holders and rng.random() < 0.6:
+        d = rng.choice(holders)
+        ch = rng.choice(list(d.children))
+        for op in list(ch.pins):
+            if op.wire is not None:
+                op.wire.disconnect_pin(op)
+        d.remove_child(ch)
+    free = sdn.Instance("free_straggler")
+    free.reference = rng.choice(defs)
+    ctx.count("netlists_with_straggler_instances")
+    return [old, free]
+
+
 def run_case(ctx, i, rng):
     n = gen_ir.generate(rng, profile="any" if i % 2 else "edif", share=0.5, ndefs=rng.randint(3, 8),
                         top_child_ok=(i % 3 == 0), name_netlist=(i % 7 != 0))
+    decorate(ctx, n, rng)
+    keep = leave_stragglers(ctx, n, rng) if i % 2 == 0 else None
     st = gen_ir.shape_stats(n)
     r = check_netlist_clone(ctx, n, rng, st)
     if r:
@@ -439,6 +482,7 @@ def run_case(ctx, i, rng):
         return
     # fresh netlist for the other roots (the first one was edited)
     n = gen_ir.generate(rng, profile="any" if i % 2 else "edif", share=0.5, ndefs=rng.randint(3, 8), top_child_ok=(i % 3 == 0))
+    decorate(ctx, n, rng)
     st = gen_ir.shape_stats(n)
     r = check_transforms_on_clone(ctx, n, st)
     if r:
